@@ -55,7 +55,9 @@ func buildDotTable(c *Ctx) *dotTable {
 		for ei, ev := range t.evs {
 			// the post-loop code may branch on the limit flag: both values must agree
 			o1 := m.Run(s, ev, map[string]bool{"field:limited": false})
-			o2 := m.Run(s, ev, map[string]bool{"field:limited": true})
+			// with the limit armed and the budget not exceeded the automaton must behave identically;
+			// the overflow branch (budget < 0 after the read) is decided by C06's rules
+			o2 := m.Run(s, ev, map[string]bool{"field:limited": true, "field:n<0": false})
 			if o1.Und == "" && o2.Und == "" && !sameOutcome(o1, o2) {
 				o1.Und = "behaviour of the automaton differs with the size limit flag"
 			}
